@@ -695,6 +695,7 @@ func main() {
 	script := flag.String("script", "", "execute this script file instead of generating (replay / minimisation)")
 	outp := flag.String("out", "", "history output file (default stdout)")
 	scriptsOut := flag.String("scripts-out", "", "also write the generated scripts here")
+	pathlex := flag.Int("pathlex", 0, "instead of histories: filepath.Clean of every string over {a,b,.,/} up to this length, plus random longer ones (lines 'pl arg clean')")
 	flag.Parse()
 	w := bufio.NewWriterSize(os.Stdout, 1<<20)
 	if *outp != "" {
@@ -706,6 +707,10 @@ func main() {
 		w = bufio.NewWriterSize(f, 1<<20)
 	}
 	defer w.Flush()
+	if *pathlex > 0 {
+		pathlexSweep(w, *pathlex, *seed)
+		return
+	}
 	if *script != "" {
 		scripts := readScripts(*script)
 		for i, sc := range scripts {
@@ -786,4 +791,40 @@ func readScripts(path string) []scriptT {
 		}
 	}
 	return out
+}
+
+// pathlexSweep: the lexical path function the library applies to every Add / Remove argument, on every string over a
+// four-letter alphabet up to length maxLen and on 4000 random longer strings over a wider one; the driver compares each
+// line with PathLex.clean of the Coq model.
+func pathlexSweep(w *bufio.Writer, maxLen int, seed int64) {
+	alpha := []byte("ab./")
+	var rec func(cur []byte, left int)
+	rec = func(cur []byte, left int) {
+		s := string(cur)
+		fmt.Fprintf(w, "pl %s %s\n", hx(s), hx(filepath.Clean(s)))
+		if left == 0 {
+			return
+		}
+		for _, c := range alpha {
+			rec(append(cur, c), left-1)
+		}
+	}
+	rec(nil, maxLen)
+	rng := rand.New(rand.NewSource(seed))
+	comps := []string{"a", "bc", ".", "..", "", "...", "d.e", ".f", "g.", "\xc3\xa9", " "}
+	for i := 0; i < 4000; i++ {
+		var b strings.Builder
+		if rng.Intn(3) == 0 {
+			b.WriteString("/")
+		}
+		n := 1 + rng.Intn(9)
+		for j := 0; j < n; j++ {
+			b.WriteString(comps[rng.Intn(len(comps))])
+			if j < n-1 || rng.Intn(3) == 0 {
+				b.WriteString("/")
+			}
+		}
+		s := b.String()
+		fmt.Fprintf(w, "pl %s %s\n", hx(s), hx(filepath.Clean(s)))
+	}
 }
